@@ -84,7 +84,8 @@ func main() {
 	doPlan("sticky", "other", parseGroup("m1:t2:g1:t1/0,t2/0;m2:t1:g2:t1/0,t1/1,t1/2;m3:t1:g2:t1/3", "t1:0,1,2,3;t2:0")) // revert witness
 	doPlan("rr", "-", parseGroup("m1:t1:-:;m2:t1:-:", "t1:0,1;t2:0"))
 	doF12()
-	calls += 4
+	doPlan("sticky", "join", supersetJoinWitness())
+	calls += 5
 
 	// ---- 3. exhaustive small shapes, all three strategies; sticky: fresh + replan + one more change
 	visit := func(g *Group) {
@@ -139,6 +140,20 @@ func main() {
 	}
 	// ---- 5. pure pieces of the sticky algorithm against their models
 	genPieces(rnd, n/10)
+
+	// ---- 6. joiners with a superset of topics over clusters with disjoint subscriptions, from fixed points.
+	// Last, because this family runs into the known non-termination of performReassignments fairly often and the
+	// harness stops calling a strategy after gaveUpLimit calls that did not return.
+	fam := 500
+	if thorough {
+		fam = 20000
+	}
+	if run.N > 0 && run.N < 5000 {
+		fam = run.N / 10
+	}
+	for i := 0; i < fam; i++ {
+		clusterJoin(rnd)
+	}
 
 	run.Finish("rangecore: exhaustive (n,m) grid + random incl. exact half points; groups: exhaustive small shapes " +
 		"(members x topics x partitions x subscription subsets) and random larger ones (identical/overlapping/disjoint/" +
